@@ -1,5 +1,5 @@
 (* C17 - no socket outlives its purpose, whatever the history. *)
-From LibFtp Require Import Bytes Decimal Reply Endpoint DataConn Client Client_Proofs.
+From LibFtp Require Import Bytes Decimal Reply Endpoint Ascii DataConn DataConn_Proofs Client Client_Proofs Login_Proofs Transfer_Proofs Transfer_More Modes_Proofs Ctl_Proofs History_Proofs Session_Proofs.
 Local Open Scope N_scope.
 
 (* for every history of API calls, every configuration and every script of the peer (successful, refused,
@@ -26,3 +26,17 @@ Print Assumptions C17_scope_closes.
    destructors), so the descriptor count does not grow with the number of operations *)
 Example C17_initial : forall cfg script, held (init_world cfg script) = O.
 Proof. reflexivity. Qed.
+
+(* after a whole session (connect, any history, QUIT) the client holds no socket at all *)
+Theorem C17_whole_session_leaves_nothing : forall w0 h p s srest g cs rss xss rq xq,
+  w_open w0 = false -> w_data w0 = None -> w_script w0 = s :: srest -> s_reachable s = true ->
+  c_mode (w_cfg w0) = Passive -> c_tls (w_cfg w0) = false ->
+  r_now (s_greeting s) = [RReply g] -> r_close_after (s_greeting s) = false -> code g <> 421 -> code g <> 120 ->
+  s_reactions s = rss ++ [rq] ->
+  history (c_rfc2428 (w_cfg w0)) (c_type (w_cfg w0)) cs rss xss -> simple_reaction rq xq ->
+  let '(os, w') := steps w0 (AConnect h p None :: cs ++ [ADisconnect true]) in
+  map outcome_replies os = map Some ([g] :: xss ++ [[xq]]) /\
+  w_open w' = false /\ w_ssl w' = false /\ w_data w' = None /\ held w' = O /\ w_script w' = srest /\
+  w_backlog w' = [] /\ w_pending w' = [].
+Proof. exact whole_session. Qed.
+Print Assumptions C17_whole_session_leaves_nothing.
